@@ -34,10 +34,52 @@ import (
 func init() { extraGenerators = append(extraGenerators, genAsmAmd64) }
 
 // routines interpreted by Arch/ArchAsm.v and the mnemonics its semantics covers
-var asmClaimed = map[string]bool{"sse4x4SSE2": true, "sse16x16SSE2": true}
+var asmClaimed = map[string]bool{"sse4x4SSE2": true, "sse16x16SSE2": true,
+	"transformWHTSSE2": true, "fTransformWHTSSE2": true, "iTransformOneSSE2": true, "iTransformOneAVX2": true}
 var asmKnownMnemonics = map[string]bool{
 	"MOVQ": true, "MOVL": true, "PXOR": true, "PUNPCKLBW": true, "PSUBW": true, "PMADDWL": true,
 	"PADDL": true, "PSHUFD": true, "RET": true, "ADDQ": true, "DECQ": true, "JNZ": true, "XORQ": true,
+	"MOVOU": true, "MOVO": true, "MOVW": true, "PEXTRW": true, "PADDW": true, "PSRAW": true, "PMULHW": true,
+	"PUNPCKLWL": true, "MOVLHPS": true, "MOVHLPS": true, "PACKUSWB": true,
+	"VPADDW": true, "VPSUBW": true, "VPSHUFD": true, "VPSRAW": true, "VPUNPCKLWD": true, "VPUNPCKLBW": true,
+	"VPUNPCKLQDQ": true, "VPUNPCKHQDQ": true, "VPXOR": true, "VZEROUPPER": true, "VPMULHW": true, "VPACKUSWB": true,
+}
+
+// asmDecodeVEX decodes a raw-encoded VEX instruction (LONG [; BYTE]) of the
+// register-register forms the AVX2 files use (Go's assembler lacks some
+// mnemonics).  Returns the mnemonic and the operands in Go order
+// (second source, first source, destination).
+func asmDecodeVEX(b []byte) (string, []asmOp, bool) {
+	var r, x, bb, l, vvvv, mm, pp int
+	var rest []byte
+	switch {
+	case len(b) == 4 && b[0] == 0xC5:
+		r, x, bb, mm = int(b[1]>>7)^1, 0, 0, 1
+		vvvv, l, pp = int(^(b[1]>>3))&15, int(b[1]>>2)&1, int(b[1])&3
+		rest = b[2:]
+	case len(b) == 5 && b[0] == 0xC4:
+		r, x, bb, mm = int(b[1]>>7)^1, int(b[1]>>6&1)^1, int(b[1]>>5&1)^1, int(b[1])&31
+		vvvv, l, pp = int(^(b[2]>>3))&15, int(b[2]>>2)&1, int(b[2])&3
+		rest = b[3:]
+	default:
+		return "", nil, false
+	}
+	_ = x
+	if mm != 1 || pp != 1 || len(rest) != 2 || rest[1]>>6 != 3 {
+		return "", nil, false
+	}
+	names := map[byte]string{0xE5: "VPMULHW", 0x67: "VPACKUSWB", 0x6B: "VPACKSSDW", 0xF5: "VPMADDWD"}
+	mn, ok := names[rest[0]]
+	if !ok {
+		return "", nil, false
+	}
+	reg, rm := int(rest[1]>>3&7)+8*r, int(rest[1]&7)+8*bb
+	pre := "X"
+	if l == 1 {
+		pre = "Y"
+	}
+	mk := func(n int) asmOp { return asmOp{kind: "R", name: fmt.Sprintf("%s%d", pre, n)} }
+	return mn, []asmOp{mk(rm), mk(vvvv), mk(reg)}, true
 }
 
 type asmOp struct {
@@ -56,6 +98,7 @@ type asmItem struct {
 
 type asmRoutine struct {
 	file, name string
+	raw        [][]string // arm64: mnemonic followed by the raw operand strings
 	items      []asmItem
 	norm       string // normalised text for the digest
 }
@@ -403,7 +446,73 @@ func genAsmAmd64() (string, string) {
 			}
 			cur.norm += strings.Join(strings.Fields(line), " ") + "\n"
 			if !amd64 {
-				continue // arm64: digest only
+				// arm64: no semantics yet - the instruction list (mnemonic, raw operands) is emitted for
+				// inspection and future interpretation; pinned through the digest
+				if m := asmLabelRE.FindStringSubmatch(line); m != nil {
+					cur.raw = append(cur.raw, []string{"L", m[1]})
+				} else {
+					mn, rest := line, ""
+					if i := strings.IndexAny(line, " \t"); i >= 0 {
+						mn, rest = line[:i], line[i+1:]
+					}
+					ent := []string{mn}
+					depth := 0
+					curop := ""
+					for _, r := range rest {
+						switch {
+						case r == '(' || r == '[':
+							depth++
+							curop += string(r)
+						case r == ')' || r == ']':
+							depth--
+							curop += string(r)
+						case r == ',' && depth == 0:
+							ent = append(ent, strings.TrimSpace(curop))
+							curop = ""
+						default:
+							curop += string(r)
+						}
+					}
+					if strings.TrimSpace(curop) != "" {
+						ent = append(ent, strings.TrimSpace(curop))
+					}
+					cur.raw = append(cur.raw, ent)
+				}
+				continue
+			}
+			if strings.HasPrefix(line, "LONG ") {
+				// raw-encoded VEX instruction: decode it when it is one of the known forms
+				var bs []byte
+				okb := true
+				for _, st := range strings.Split(line, ";") {
+					f := strings.Fields(strings.TrimSpace(st))
+					if len(f) != 2 {
+						okb = false
+						break
+					}
+					v, err := strconv.ParseUint(strings.TrimPrefix(f[1], "$"), 0, 64)
+					if err != nil {
+						okb = false
+						break
+					}
+					switch f[0] {
+					case "LONG":
+						bs = append(bs, byte(v), byte(v>>8), byte(v>>16), byte(v>>24))
+					case "BYTE":
+						bs = append(bs, byte(v))
+					default:
+						okb = false
+					}
+				}
+				if okb {
+					if mn, ops, ok := asmDecodeVEX(bs); ok {
+						cur.items = append(cur.items, asmItem{mn: mn, ops: ops})
+						continue
+					}
+				}
+				if asmClaimed[cur.name] {
+					refuse("asmparse: %s:%d: raw-encoded instruction %q in claimed routine %s cannot be decoded", f, ln+1, line, cur.name)
+				}
 			}
 			if strings.Contains(line, ";") { // several statements on one line (LONG ...; BYTE ...)
 				stmts := strings.Split(line, ";")
@@ -492,6 +601,28 @@ func genAsmAmd64() (string, string) {
 	if nins < 1500 {
 		refuse("asmparse: only %d amd64 instructions parsed (expected ~2000)", nins)
 	}
+	b.WriteString("(* arm64 routines: (mnemonic, raw operand strings); labels as (\"L\", [name]).  No semantics yet. *)\n")
+	narm := 0
+	for _, r := range routines {
+		if !strings.HasSuffix(r.file, "_arm64.s") {
+			continue
+		}
+		fmt.Fprintf(&b, "(* %s *)\nDefinition arm64_%s : list (string * list string) := [\n", r.file, r.name)
+		for i, e := range r.raw {
+			sep := ";"
+			if i == len(r.raw)-1 {
+				sep = ""
+			}
+			var ops []string
+			for _, o := range e[1:] {
+				ops = append(ops, "\""+coqString(o)+"\"")
+			}
+			fmt.Fprintf(&b, " (\"%s\", [%s])%s\n", coqString(e[0]), strings.Join(ops, "; "), sep)
+			narm++
+		}
+		b.WriteString("].\n\n")
+	}
+	fmt.Fprintf(&b, "Definition arm64_instruction_count : Z := %d.\n\n", narm)
 	b.WriteString("(* DATA tables of the amd64 files: (symbol, offset, size, value) *)\n")
 	b.WriteString("Definition asm_data : list (string * Z * Z * Z) := [\n")
 	for i, d := range data {
